@@ -622,3 +622,5 @@ def run(chk):
     from . import entrypoints
     entrypoints.check_entry_points(chk, F)
     entrypoints.check_constructors(chk, F)
+    from . import ctors
+    chk.guard("R12.7", "typed-constructors", ctors.check_typed_constructors, chk, F, "R12.7")
